@@ -183,6 +183,7 @@ def dynamic_scenarios(root):
         if not (res[0] == "raise" and res[1] == "UndeclaredDependencyError"):
             fails.append(dict(clause="undeclared-call-refused", scenario="explicitly-versioned-callee", callee_memoized=pre, got=res[:2]))
     fails += package_init_scenario(root)
+    fails += names_scenario(root)
     seq = [["import"], ["deps", "late_user"], ["call", "late_user", 1], ["bind", "aux", "late", "secret"], ["deps", "late_user"], ["call", "late_user", 2]]
     out = vrun.child(dict(root=root, pkg=pkg, store=os.path.join(root, "store2"), actions=seq))
     try:
@@ -192,6 +193,46 @@ def dynamic_scenarios(root):
             fails.append(dict(clause="declared-call-allowed", scenario="late-bound-attribute", got=out[5]["result"][:3]))
     except Exception as e:
         fails.append(dict(clause="dependencies-computable", scenario="late-bound-attribute", error=repr(e), out=out))
+    return fails
+
+
+def names_scenario(root):
+    """names that are prefixes of one another, and equal function names in two modules: identity is the qualified name"""
+    pkg = "vnames_%d" % os.getpid()
+    d = os.path.join(root, pkg)
+    os.makedirs(d, exist_ok=True)
+    open(os.path.join(d, "__init__.py"), "w").write("")
+    open(os.path.join(d, "aux.py"), "w").write(
+        'from twosigma.memento import memento_function\n\n\n@memento_function(cluster="vp")\ndef load(x):\n    return x * 2\n')
+    open(os.path.join(d, "mod.py"), "w").write(
+        'from twosigma.memento import memento_function\nfrom . import aux\n\n\n'
+        '@memento_function(cluster="vp")\ndef price_history(x):\n    return [x]\n\n\n'
+        '@memento_function(cluster="vp")\ndef price(x):\n    return x + 1\n\n\n'
+        '@memento_function(cluster="vp")\ndef m1(x):\n    return x + 10\n\n\n'
+        '@memento_function(cluster="vp")\ndef m10(x):\n    return x + 100\n\n\n'
+        '@memento_function(cluster="vp")\ndef report(x):\n    price_history(x)\n    m10(x)\n    return globals()["pri" + "ce"](x)\n\n\n'
+        '@memento_function(cluster="vp")\ndef report2(x):\n    m10(x)\n    return globals()["m" + "1"](x)\n\n\n'
+        '@memento_function(cluster="vp")\ndef load(x):\n    return aux.load(x) + 1\n\n\n'
+        '@memento_function(cluster="vp")\ndef total(x):\n    return load(x)\n')
+    fails = []
+    out = vrun.child(dict(root=root, pkg=pkg, store=os.path.join(root, "store_names"),
+                          actions=[["import"], ["call", "report", 1], ["call", "report2", 1], ["deps", "load"], ["call", "load", 2],
+                                   ["deps", "total"], ["call", "total", 3]]))
+    try:
+        for i, who in ((1, "report"), (2, "report2")):
+            res = out[i]["result"]
+            if not (res[0] == "raise" and res[1] == "UndeclaredDependencyError"):
+                fails.append(dict(clause="undeclared-call-refused", scenario="callee-name-is-a-prefix-of-a-dependency", fn=who, got=res[:2]))
+        if out[3]["trans"] != ["load"] or out[3]["direct"] != ["load"]:
+            fails.append(dict(clause="transitive-dependencies-exact", scenario="same-function-name-in-two-modules", fn="mod.load", got=out[3]))
+        if out[4]["result"] != ["ok", 5]:
+            fails.append(dict(clause="declared-call-allowed", scenario="same-function-name-in-two-modules", fn="mod.load", got=out[4]["result"][:3]))
+        if out[5]["trans"] != ["load", "load"] or out[5]["direct"] != ["load"]:
+            fails.append(dict(clause="transitive-dependencies-exact", scenario="same-function-name-in-two-modules", fn="total", got=out[5]))
+        if out[6]["result"] != ["ok", 7]:
+            fails.append(dict(clause="declared-call-allowed", scenario="same-function-name-in-two-modules", fn="total", got=out[6]["result"][:3]))
+    except Exception as e:
+        fails.append(dict(clause="dependencies-computable", scenario="names", error=repr(e), out=out))
     return fails
 
 
